@@ -1452,7 +1452,7 @@ Proof. rewrite iteration_fst. apply run_clock_wf, init_clock_wf. Qed.
 Definition is_tracked (m : micro) : bool :=
   match m with
   | MLoadPost _ _ _ | MFuLoadPost _ _ _ _ _ | MStorePost _ _ _ | MRmwPost _ _ _ _
-  | MCellRead _ | MCellWrite _ _ | MCellNested _ _ | MFence _ => true
+  | MCellRead _ | MCellWrite _ _ | MCellNested _ _ | MFence _ | MUnsyncLoad _ | MWithMut _ _ => true
   | _ => false
   end.
 
@@ -1506,26 +1506,8 @@ Proof.
   rewrite (own_after_inc e me t Ht Hlt) in Hc. lia.
 Qed.
 
-(* DEVIATION: the unsynchronised accesses do not bump the clock (as in loom:
-   unsync_load / with_mut do not go through rt::synchronize) *)
-Lemma unsync_access_keeps_clock e me a e' :
-  exec_micro e me (MUnsyncLoad a) = MOk e' -> caus_of e' me = caus_of e me.
-Proof.
-  cbn [exec_micro]. destruct (get_atomic e a) as [s|]; [|discriminate].
-  destruct (track_unsync_load s (caus_of e me)) as [s1|pn]; [|discriminate].
-  intros H. injection H as <-.
-  apply caus_of_threads_eq. rewrite e_threads_log_op. reflexivity.
-Qed.
-
-Lemma with_mut_keeps_clock e me a v e' :
-  exec_micro e me (MWithMut a v) = MOk e' -> caus_of e' me = caus_of e me.
-Proof.
-  cbn [exec_micro]. destruct (get_atomic e a) as [s|]; [|discriminate].
-  destruct (track_unsync_mut s (caus_of e me)) as [s1|pn]; [|discriminate]. cbv zeta.
-  destruct (track_unsync_mut _ (caus_of e me)) as [s3|pn]; [|discriminate].
-  intros H. injection H as <-.
-  apply caus_of_threads_eq. rewrite e_threads_log_op. reflexivity.
-Qed.
+(* the unsynchronised accesses (unsync_load, with_mut) bump the clock as well since loom fix D23:
+   they are covered by is_tracked / own_component_increases above *)
 
 (* ================================================================== *)
 (* 6. C3: the stamp of an access is the own component                  *)
@@ -1803,8 +1785,6 @@ Print Assumptions spawn_clock.
 Print Assumptions own_component_increases.
 Print Assumptions own_component_increases_wf.
 Print Assumptions own_component_increases_load_post.
-Print Assumptions unsync_access_keeps_clock.
-Print Assumptions with_mut_keeps_clock.
 Print Assumptions cell_write_stamp.
 Print Assumptions cell_read_stamp.
 Print Assumptions store_stamp.
@@ -1834,13 +1814,10 @@ Print Assumptions cell_write_allowed_iff.
        model).  The model allows configurations with max_threads >
        MAX_THREADS, in which a thread with id >= MAX_THREADS never ticks; loom
        itself refuses such a configuration.
-   D4  C2 is FALSE for MUnsyncLoad and MWithMut: they do not call
-       causality_inc (unsync_load / with_mut do not go through
-       rt::synchronize in loom either): unsync_access_keeps_clock,
-       with_mut_keeps_clock.  Two unsynchronised accesses of one thread carry
-       the same stamp; this is harmless for race detection (accesses of one
-       thread are ordered anyway; the stamp only has to be covered by the clock
-       of OTHER threads that have synchronised with this one afterwards).
+   D4  (historical) before loom fix D23 MUnsyncLoad and MWithMut did not call
+       causality_inc, so an unsync_load right after a release store carried the stamp the
+       release had published and an acquirer's with_mut did not race with it: a genuine
+       missed race, found when 'access right after a release' programs were added to F-race.
        is_tracked lists the operations for which C2 holds: MLoadPost,
        MFuLoadPost, MStorePost, MRmwPost, MCellRead, MCellWrite, MCellNested
        (which bumps twice), MFence; the
